@@ -79,6 +79,8 @@ def bookkeeping_violations(case, obs):
         ent = next(e for e in case["table"] if e["name"] == tr["name"])
         xrefs = [r for r in machine.tree_refs(ent["tree"]) if case["objs"][r]["kind"] == "exch"]
         n_ins = len(added) // k_t if k_t else 0
+        if any(p[1] == "B" for p in tr.get("presel", [])) and (ent["tree"][0] == "L" or ent.get("swap")) and added:
+            n_ins = 1       # ONE particle of a pre-selected species that is larger than the template
         n_del = 0
         if removed and xrefs:
             lab_before = b["labels"][xrefs[0]]
@@ -87,7 +89,11 @@ def bookkeeping_violations(case, obs):
             out.append((f"nexch:counter:{ts}", f"trial {k}: {b['ctx']['nexch']} -> {a['ctx']['nexch']} with {n_ins} insertions, {n_del} deletions"))
         # 3. labels of inserted particles
         if added and k_t:
-            chunks = [added[j:j + k_t] for j in range(0, len(added), k_t)]
+            # the new atoms are appended after the nb atoms the trial started with, whatever the order of insertions and
+            # deletions inside the trial (a swap deletes first, so the INDEX VALUES it reports are post-deletion; the
+            # labels are appended at the tail all the same): work with tail positions, then account for the removals
+            tail = [nb + j for j in range(len(added))]
+            chunks = [tail[j:j + k_t] for j in range(0, len(tail), k_t)]
             for r, lab in enumerate(a["labels"]):
                 if lab is None or r not in reach or len(lab) != natoms:
                     continue
